@@ -153,11 +153,65 @@ def shards(tier, seed):
     out += [("cookie", i) for i in range(len(COOKIE_ALPHA) + 1)]
     out += [("hdrstrings", iface) for iface in ("wsgi", "asgi")]
     out += [("redirect", i) for i in range(len(URL_ALPHA))]
+    out.append(("coldstart",))
     return out
+
+
+COLD_SPECS = [("a", "x y;z"), ("sid", 'v; domain=evil.example, x=1\r\nSet-Cookie: admin=1\0"\\'), ("q", "é,ü")]
+
+
+def run_cold_pair(prefix, specs):
+    """The first cookies of a process, rendered by two threads at once: the module that holds the escaping code is loaded anew
+    before every execution, so whatever it sets up on first use is set up under the scheduler (a switch is possible on every line
+    of baize/datastructures.py)."""
+    import importlib
+    import os
+    from ..core import vthreads as VT
+    from ..core.runner import REPO
+    import baize.datastructures as DS
+    DS = importlib.reload(DS)
+    jobs = [lambda i=i: str(DS.Cookie(*specs[i])) for i in (0, 1)]
+    return VT.run_thread_pair(prefix, jobs, [os.path.join(REPO, "baize", "datastructures.py")])
+
+
+def coldstart(r, tier):
+    from ..core.explore import dfs
+    import baize.datastructures as DS
+    for i in range(len(COLD_SPECS)):
+        for j in range(len(COLD_SPECS)):
+            specs = [COLD_SPECS[i], COLD_SPECS[j]]
+            alone = [str(DS.Cookie(*a)) for a in specs]
+
+            def on_exec(x):
+                r.count("evaluations")
+                r.count("traces")
+                r.count("transitions", len(x.choices))
+                res = list(x.obs["results"])
+                if x.obs["stuck"] or res != alone:
+                    bad = [l for l in res if isinstance(l, str) and (bad_chars(l) or l.count(";") != alone[res.index(l)].count(";"))] if not x.obs["stuck"] else []
+                    r.violation("coldstart:" + ("line-injected" if bad else "differs"), {"kind": "coldstart", "specs": [list(a) for a in specs], "schedule": list(x.choices)},
+                                f"the first two cookies of a process rendered by two threads at once ({[a[0] for a in specs]}), schedule {x.obs['trace'][-10:]}: {res!r:.300}; each alone: {alone!r:.300}")
+            dfs(lambda prefix: run_cold_pair(prefix, specs), on_exec, bound=1 if tier == "quick" else 2)
+            r.count("distinct_nontrivial")
+    r.sample({"coldstart": [list(a) for a in COLD_SPECS[:2]], "module_reloaded_per_execution": "baize/datastructures.py", "preemption_bound": 1 if tier == "quick" else 2})
+
+
+def bad_chars(line):
+    return any(c in line for c in "\r\n\0")
+
+
+def run_shard_fresh(desc, tier):
+    r = R()
+    coldstart(r, tier)
+    return r
 
 
 def run_shard(desc, tier):
     r = R()
+    if desc[0] == "coldstart":
+        # (in an interpreter of its own: re-loading a module leaves two generations of its classes behind)
+        from ..core import fresh
+        return fresh.call(__name__, ("coldstart-run",), tier)
     if desc[0] == "headers":
         _, iface, ii = desc
         init = INITS[ii]
@@ -473,6 +527,11 @@ def finish(merged, tier):
 
 def replay(w):
     r = R()
+    if w["kind"] == "coldstart":
+        from ..core import fresh
+        rr = fresh.call(__name__, ("coldstart-run",), "quick")
+        hits = {k: v for k, v in rr.viol.items() if v[1].get("specs") == w["specs"]} or rr.viol
+        return bool(hits), {"violations": sorted(hits), "texts": [v[2][:300] for v in hits.values()]}
     if w["kind"] == "headers":
         init = tuple(tuple(p) for p in w["init"])
         hist = tuple(tuple(o) for o in w["history"])
